@@ -37,6 +37,9 @@ impl Src for KaniSrc {
     fn u64(&mut self) -> u64 {
         kani::any()
     }
+    fn bytes<const N: usize>(&mut self) -> [u8; N] {
+        kani::any()
+    }
 }
 
 /// Native source: bytes in the order Kani's concrete playback lists them (little endian per draw).
